@@ -26,6 +26,7 @@ func (env *env) Next() (any, bool) {
 loop:
 	for ; pc < len(env.codes); pc++ {
 		env.debugState(pc, backtrack)
+		env.verifStep(pc, backtrack)
 		code := env.codes[pc]
 		if hasCtx {
 			select {
